@@ -118,6 +118,7 @@ type gl struct {
 	scanTok     string                  // inside `for sc.Scan() {}`: the Lean name of the current token
 	wrMethods   map[string]string       // "Type.Method" of a translated writer method (io.Writer = Wr) -> its Lean name
 	usesRoom    bool                    // the function hands a *bytes.Buffer to a translated writer method: parameter `room`
+	ioReaderSrc string                  // "bytes"/"lines": an io.Reader is the pair (remaining bytes / line tokens, ending) of the fasta/fastq readers
 	closureLast ast.Stmt                // last statement of the iter.Seq2 closure being translated
 	inRangeFunc bool                    // inside the body of `for k, v := range <translated iterator>(…)`
 	curBody     *ast.BlockStmt          // body of the function being translated (funcOrMethod)
@@ -536,6 +537,11 @@ func (g *gl) heapUses(fd *ast.FuncDecl) bool {
 				if _, known := g.heapFuncs[fn.Name()]; known {
 					use = true
 				}
+				if a, ok := g.funcAlias[fn.Name()]; ok {
+					if _, known := g.heapFuncs[a]; known {
+						use = true
+					}
+				}
 				if ln, ok := g.methodNames[g.heapT+"."+fn.Name()]; ok {
 					if _, known := g.heapFuncs[ln]; known {
 						use = true
@@ -631,7 +637,7 @@ func (g *gl) heapWrites(body ast.Node) bool {
 						wr = true
 					}
 				}
-				if fn, ok := g.info.Uses[id].(*types.Func); ok && fn.Pkg() == g.pkg && g.heapFuncs[fn.Name()] {
+				if fn, ok := g.info.Uses[id].(*types.Func); ok && fn.Pkg() == g.pkg && (g.heapFuncs[fn.Name()] || g.heapFuncs[g.funcAlias[fn.Name()]]) {
 					wr = true
 				}
 			}
@@ -714,7 +720,33 @@ func (g *gl) leanType(t types.Type) string {
 	if isStrPtr(t) {
 		return "Option (List UInt8)"
 	}
+	if g.ioReaderSrc != "" {
+		isRd := false
+		if p, ok := t.(*types.Pointer); ok {
+			if n, ok := p.Elem().(*types.Named); ok && n.Obj().Pkg() != nil && strings.HasSuffix(n.Obj().Pkg().Path(), "gostuff/aio") && n.Obj().Name() == "Reader" {
+				isRd = true
+			}
+		}
+		if n, ok := t.(*types.Named); ok && n.Obj().Pkg() != nil && n.Obj().Pkg().Path() == "io" && n.Obj().Name() == "Reader" {
+			isRd = true
+		}
+		if isRd && g.ioReaderSrc == "lines" {
+			return "(List (List UInt8) × Ending)"
+		}
+		if isRd {
+			return "(List UInt8 × Ending)"
+		}
+	}
 	if g.ioReaderBuf {
+		if p, ok := t.(*types.Pointer); ok {
+			if n, ok := p.Elem().(*types.Named); ok && n.Obj().Pkg() != nil && strings.HasSuffix(n.Obj().Pkg().Path(), "gostuff/aio") && n.Obj().Name() == "Reader" {
+				// an opened file, handed on as an io.Reader: the same abstract reader state
+				if g.byteRd {
+					return "ByteRd"
+				}
+				return "BufRd"
+			}
+		}
 		if n, ok := t.(*types.Named); ok && n.Obj().Pkg() != nil && n.Obj().Pkg().Path() == "io" && n.Obj().Name() == "Reader" {
 			if g.byteRd {
 				return "ByteRd"
@@ -2083,6 +2115,112 @@ func (g *gl) heapCall(c *ast.CallExpr) (string, bool, bool) {
 	return strings.Join(parts, " "), wr, true
 }
 
+// readerCtorOK: fid names a one-parameter function of this package that does nothing but wrap its io.Reader:
+// `return &T{bufio.NewReader(r)}`, or `s := bufio.NewScanner(r); s.Buffer(nil, math.MaxInt); return &T{s: s}`
+// (the unlimited token size is what the `lines` reading of a Scanner assumes)
+func (g *gl) readerCtorOK(fid *ast.Ident) bool {
+	fn, ok := g.info.Uses[fid].(*types.Func)
+	if !ok || fn.Pkg() != g.pkg {
+		return false
+	}
+	fd, _ := g.findFunc(fn.Name(), 0)
+	if fd == nil || fd.Recv != nil || fd.Body == nil || fd.Type.Params.NumFields() != 1 || len(fd.Type.Params.List[0].Names) != 1 {
+		return false
+	}
+	p := fd.Type.Params.List[0].Names[0].Name
+	wraps := func(e ast.Expr, ctor string) bool {
+		c, ok := e.(*ast.CallExpr)
+		if !ok || len(c.Args) != 1 {
+			return false
+		}
+		sel, ok := c.Fun.(*ast.SelectorExpr)
+		if !ok || sel.Sel.Name != ctor {
+			return false
+		}
+		pk, ok := sel.X.(*ast.Ident)
+		if !ok {
+			return false
+		}
+		pn, ok := g.info.Uses[pk].(*types.PkgName)
+		a, isId := c.Args[0].(*ast.Ident)
+		return ok && pn.Imported().Path() == "bufio" && isId && a.Name == p
+	}
+	local := ""
+	sawBuffer := false
+	for i, s := range fd.Body.List {
+		switch v := s.(type) {
+		case *ast.AssignStmt:
+			if i != 0 || v.Tok != token.DEFINE || len(v.Lhs) != 1 || len(v.Rhs) != 1 || !wraps(v.Rhs[0], "NewScanner") {
+				return false
+			}
+			local = v.Lhs[0].(*ast.Ident).Name
+		case *ast.ExprStmt:
+			c, ok := v.X.(*ast.CallExpr)
+			if !ok || len(c.Args) != 2 || local == "" {
+				return false
+			}
+			sel, ok := c.Fun.(*ast.SelectorExpr)
+			x, isId := sel.X.(*ast.Ident)
+			if !ok || !isId || x.Name != local || sel.Sel.Name != "Buffer" {
+				return false
+			}
+			tv, ok := g.info.Types[c.Args[1]]
+			if !ok || tv.Value == nil {
+				return false
+			}
+			if n, exact := constant.Int64Val(tv.Value); !exact || n != math.MaxInt64 {
+				return false
+			}
+			sawBuffer = true
+		case *ast.ReturnStmt:
+			if i != len(fd.Body.List)-1 || len(v.Results) != 1 {
+				return false
+			}
+			u, ok := v.Results[0].(*ast.UnaryExpr)
+			if !ok || u.Op != token.AND {
+				return false
+			}
+			cl, ok := u.X.(*ast.CompositeLit)
+			if !ok || len(cl.Elts) != 1 {
+				return false
+			}
+			val := cl.Elts[0]
+			if kv, ok := val.(*ast.KeyValueExpr); ok {
+				val = kv.Value
+			}
+			if id, ok := val.(*ast.Ident); ok {
+				return local != "" && id.Name == local && sawBuffer
+			}
+			return local == "" && wraps(val, "NewReader")
+		default:
+			return false
+		}
+	}
+	return false
+}
+
+// ctorShape: fid names a one-parameter function of this package whose whole body is `return &T{…}`
+func (g *gl) ctorShape(fid *ast.Ident) (*ast.FuncDecl, *ast.CompositeLit, bool) {
+	fn, ok := g.info.Uses[fid].(*types.Func)
+	if !ok || fn.Pkg() != g.pkg {
+		return nil, nil, false
+	}
+	fd, _ := g.findFunc(fn.Name(), 0)
+	if fd == nil || fd.Recv != nil || fd.Body == nil || len(fd.Body.List) != 1 || fd.Type.Params.NumFields() != 1 {
+		return nil, nil, false
+	}
+	ret, ok := fd.Body.List[0].(*ast.ReturnStmt)
+	if !ok || len(ret.Results) != 1 {
+		return nil, nil, false
+	}
+	u, ok := ret.Results[0].(*ast.UnaryExpr)
+	if !ok || u.Op != token.AND {
+		return nil, nil, false
+	}
+	cl, ok := u.X.(*ast.CompositeLit)
+	return fd, cl, ok
+}
+
 // ctorFields: fid names a function of this package whose whole body is `return &T{…}` with one parameter; the
 // fields of T and, for each, the Lean term of its initial value with the parameter replaced by arg
 func (g *gl) ctorFields(fid *ast.Ident, arg ast.Expr) ([]*types.Var, []string, bool) {
@@ -2175,17 +2313,42 @@ func (g *gl) rangeFunc(w *wr, v *ast.RangeStmt) bool {
 	if !ok || !g.yield2 || g.rdKind != "" || g.inRangeFunc {
 		return false
 	}
-	fid, ok := c.Fun.(*ast.Ident)
-	if !ok {
-		return false
-	}
-	fn, ok := g.info.Uses[fid].(*types.Func)
-	if !ok || fn.Pkg() != g.pkg {
-		return false
-	}
-	lname := fid.Name
-	if a, ok := g.funcAlias[lname]; ok {
-		lname = a
+	var lname string
+	var srcArg ast.Expr // newReader(x).iter(): the callee takes x's two components
+	if sel, isSel := c.Fun.(*ast.SelectorExpr); isSel && g.ioReaderSrc != "" && len(c.Args) == 0 {
+		inner, ok := sel.X.(*ast.CallExpr)
+		if !ok || len(inner.Args) != 1 {
+			return false
+		}
+		ctor, ok := inner.Fun.(*ast.Ident)
+		if !ok {
+			return false
+		}
+		if !g.readerCtorOK(ctor) {
+			g.die(v, "the reader constructor does more than wrap its io.Reader")
+		}
+		mfn, ok := g.info.Uses[sel.Sel].(*types.Func)
+		if !ok || mfn.Pkg() != g.pkg {
+			return false
+		}
+		ln, ok := g.methodLean(mfn)
+		if !ok {
+			return false
+		}
+		lname, srcArg = ln, inner.Args[0]
+	} else {
+		fid, ok := c.Fun.(*ast.Ident)
+		if !ok {
+			return false
+		}
+		fn, ok := g.info.Uses[fid].(*types.Func)
+		if !ok || fn.Pkg() != g.pkg {
+			return false
+		}
+		lname = fid.Name
+		if a, ok := g.funcAlias[lname]; ok {
+			lname = a
+		}
 	}
 	callee := g.funcs[lname]
 	if callee == nil || !callee.found || !g.iterFuncs[lname] || callee.itemT == "" {
@@ -2215,6 +2378,13 @@ func (g *gl) rangeFunc(w *wr, v *ast.RangeStmt) bool {
 		}
 		parts = append(parts, x.arg())
 	}
+	if srcArg != nil {
+		x := g.expr(srcArg)
+		if x.act {
+			g.die(srcArg, "iterator argument with effects")
+		}
+		parts = append(parts, x.arg()+".1", x.arg()+".2")
+	}
 	bw := &wr{b: &bytes.Buffer{}, ind: w.ind + 1}
 	bw.line("let mut log := log")
 	if kid.Name != "_" {
@@ -2236,7 +2406,23 @@ func (g *gl) rangeFunc(w *wr, v *ast.RangeStmt) bool {
 	w.b.WriteString(bw.b.String())
 	w.line("let log0 := log")
 	w.line("let run : List " + callee.itemT + " → (List " + g.yieldT + " × Bool) := fun h => h.foldl (fun st item => if st.2 then step st.1 item else st) (log0, true)")
-	w.line("let inner ← " + strings.Join(parts, " ") + " (fun h => (run h).2)")
+	if hwr, huse := g.heapFuncs[lname]; g.heapT != "" && huse {
+		// the callee takes the heap (right after fuel) and, when it allocates, hands it back next to its log
+		at := 1 + len(callee.exts)
+		if callee.fuel {
+			at++
+		}
+		parts = append(parts[:at], append([]string{"heap"}, parts[at:]...)...)
+		if hwr {
+			w.line("let innerH ← " + strings.Join(parts, " ") + " (fun h => (run h).2)")
+			w.line("heap := innerH.2")
+			w.line("let inner := innerH.1")
+		} else {
+			w.line("let inner ← " + strings.Join(parts, " ") + " (fun h => (run h).2)")
+		}
+	} else {
+		w.line("let inner ← " + strings.Join(parts, " ") + " (fun h => (run h).2)")
+	}
 	w.line("if !(run inner.dropLast).2 then")
 	w.ind++
 	w.line("(none : Option Unit)") // the iterator went on after the loop body had ended the loop: Go panics
@@ -3278,6 +3464,16 @@ func (g *gl) stmt(w *wr, s ast.Stmt) {
 			w.line("broke := true")
 			w.line("break")
 			return
+		}
+	case *ast.DeferStmt:
+		// defer f.Close() on an opened file: closing has no effect on the items handed over; not modelled
+		if sel, ok := v.Call.Fun.(*ast.SelectorExpr); ok && sel.Sel.Name == "Close" && len(v.Call.Args) == 0 && (g.ioReaderBuf || g.ioReaderSrc != "") {
+			if id, ok := sel.X.(*ast.Ident); ok {
+				if lt := g.leanTypeOK(g.typeOf(id)); lt == "BufRd" || lt == "ByteRd" || strings.HasSuffix(lt, "× Ending)") {
+					w.line("-- defer " + id.Name + ".Close(): not modelled (no effect on the items)")
+					return
+				}
+			}
 		}
 	case *ast.DeclStmt:
 		gd, ok := v.Decl.(*ast.GenDecl)
@@ -5413,6 +5609,8 @@ func (g *gl) iterMethod(lname, readName, recvType, method, kind, rel, recT, plac
 		w.line("(none : Option Unit)")
 		w.ind--
 		w.line("return log")
+		g.funcs[lname].itemT, g.funcs[lname].fuel = "("+g.iterRec+")", true
+		g.iterFuncs[lname] = true
 		text := fmt.Sprintf("def %s_Found : Bool := true\n/-- translated from (*%s).%s in %s/%s; `fuel` bounds the `for {}` loop (out of fuel = `none`), `yield` is the consumer (given all items handed to it so far, the current one last; so stateful consumers are covered), the result the log of items handed to it -/\ndef %s (fuel : Nat) (%s : %s) (ending : Ending) (yield : List (%s) → Bool) : Option (List (%s)) := do\n%s",
 			lname, recvType, method, rel, file, lname, st, stT, g.iterRec, g.iterRec, w.b.String())
 		return text, nil
@@ -5755,6 +5953,25 @@ func goLean(repo, out string) {
 	g4.wrMethods = map[string]string{"Fastq.Write": "fastq_Write"}
 	g4.method("Fastq", "MarshalText", "fastq_MarshalText", "formats/fastq", "def fastq_MarshalText (room : Nat) (f_Name : "+B+") (f_Sequence : "+B+") (f_Quals : "+B+") : Option (("+B+") × GoErr) := none")
 	w.WriteString(g4.funcs["fastq_MarshalText"].text + "\n")
+	// Reader and File of both: range-over-func loops that forward every item of the inner iterator; the io.Reader /
+	// the opened file is the pair (remaining bytes or line tokens, ending) the translated read methods work on
+	const FAIT, FQIT = "((Option (("+B+") × ("+B+"))) × GoErr)", "((Option (("+B+") × ("+B+") × ("+B+"))) × GoErr)"
+	g3.ioReaderSrc, g3.recT = "bytes", map[string]bool{"Fasta": true}
+	g3.methodNames = map[string]string{"reader.iter": "fasta_iter"}
+	g3.wrMethods = nil
+	g3.funcOrMethod("", "Reader", "fasta_Reader", "formats/fasta", "def fasta_Reader (fuel : Nat) (r : ("+B+" × Ending)) (yield : List "+FAIT+" → Bool) : Option (List "+FAIT+") := none")
+	g3.extFuncs = map[string]extFunc{"github.com/fluhus/gostuff/aio.Open": {"aio_Open", B+" → ("+B+" × Ending) × GoErr"}}
+	g3.funcAlias = map[string]string{"Reader": "fasta_Reader"}
+	g3.funcOrMethod("", "File", "fasta_File", "formats/fasta", "def fasta_File (aio_Open : "+B+" → ("+B+" × Ending) × GoErr) (fuel : Nat) (file : "+B+") (yield : List "+FAIT+" → Bool) : Option (List "+FAIT+") := none")
+	w.WriteString(g3.funcs["fasta_Reader"].text + "\n" + g3.funcs["fasta_File"].text + "\n")
+	g4.ioReaderSrc, g4.recT = "lines", map[string]bool{"Fastq": true}
+	g4.methodNames = map[string]string{"reader.iter": "fastq_iter"}
+	g4.wrMethods = nil
+	g4.funcOrMethod("", "Reader", "fastq_Reader", "formats/fastq", "def fastq_Reader (fuel : Nat) (r : ("+BB+" × Ending)) (yield : List "+FQIT+" → Bool) : Option (List "+FQIT+") := none")
+	g4.extFuncs = map[string]extFunc{"github.com/fluhus/gostuff/aio.Open": {"aio_Open", B+" → ("+BB+" × Ending) × GoErr"}}
+	g4.funcAlias = map[string]string{"Reader": "fastq_Reader"}
+	g4.funcOrMethod("", "File", "fastq_File", "formats/fastq", "def fastq_File (aio_Open : "+B+" → ("+BB+" × Ending) × GoErr) (fuel : Nat) (file : "+B+") (yield : List "+FQIT+" → Bool) : Option (List "+FQIT+") := none")
+	w.WriteString(g4.funcs["fastq_Reader"].text + "\n" + g4.funcs["fastq_File"].text + "\n")
 	// regions: the whole package
 	g6 := loadPkg(filepath.Join(repo, "regions"))
 	const EV, IV = "(Int × Int × Bool)", "(Int × (List Int))"
@@ -5846,8 +6063,13 @@ func goLean(repo, out string) {
 	// newick.Reader: the iter.Seq2 closure around newReader + read; the items are pointers into the heap handed back
 	g2b.ioReaderBuf = true
 	g2b.funcOrMethod("", "Reader", "newick_Reader", "formats/newick", "def newick_Reader (strconv_ParseFloat : "+PFLOAT+") (fuel : Nat) (heap : "+NHEAP+") (r : ByteRd) (yield : List (Int × GoErr) → Bool) : Option ((List (Int × GoErr)) × "+NHEAP+") := none")
+	const NOPEN = "List UInt8 → ByteRd × GoErr"
+	g2b.extFuncs["github.com/fluhus/gostuff/aio.Open"] = extFunc{"aio_Open", NOPEN}
+	g2b.funcAlias = map[string]string{"Reader": "newick_Reader"}
+	g2b.funcOrMethod("", "File", "newick_File", "formats/newick", "def newick_File (aio_Open : "+NOPEN+") (strconv_ParseFloat : "+PFLOAT+") (fuel : Nat) (heap : "+NHEAP+") (file : "+B+") (yield : List (Int × GoErr) → Bool) : Option ((List (Int × GoErr)) × "+NHEAP+") := none")
 	g2b.ioReaderBuf = false
 	w.WriteString(g2b.funcs["newick_Reader"].text + "\n")
+	w.WriteString(g2b.funcs["newick_File"].text + "\n")
 	// formats/newick: the recursive writer.  The tree is only read: *Node is the model's `Newick.Tree`; the
 	// *bytes.Buffer is the bytes written so far; `%v` of a float64 distance is the parameter `fmt_float`
 	g2c := loadPkg(filepath.Join(repo, "formats", "newick"))
@@ -5906,6 +6128,11 @@ func goLean(repo, out string) {
 	const SIT = "((Option "+SAMT+") × GoErr)"
 	g5b.funcAlias["ReaderHeader"] = "sam_ReaderHeader"
 	g5b.funcOrMethod("", "Reader", "sam_Reader", "formats/sam", "def sam_Reader (hex_DecodeString : "+SHEX+") (strconv_Atoi : "+SATOI+") (strconv_ParseFloat : "+SPF+") (fuel : Nat) (r : BufRd) (yield : List "+SIT+" → Bool) : Option (List "+SIT+") := none")
+	const SOPEN = "List UInt8 → BufRd × GoErr"
+	g5b.extFuncs["github.com/fluhus/gostuff/aio.Open"] = extFunc{"aio_Open", SOPEN}
+	g5b.funcAlias["Reader"] = "sam_Reader"
+	g5b.funcOrMethod("", "File", "sam_File", "formats/sam", "def sam_File (hex_DecodeString : "+SHEX+") (aio_Open : "+SOPEN+") (strconv_Atoi : "+SATOI+") (strconv_ParseFloat : "+SPF+") (fuel : Nat) (file : "+B+") (yield : List "+SIT+" → Bool) : Option (List "+SIT+") := none")
+	g5b.funcOrMethod("", "FileHeader", "sam_FileHeader", "formats/sam", "def sam_FileHeader (hex_DecodeString : "+SHEX+") (aio_Open : "+SOPEN+") (strconv_Atoi : "+SATOI+") (strconv_ParseFloat : "+SPF+") (fuel : Nat) (file : "+B+") (yield : List "+SHT+" → Bool) : Option (List "+SHT+") := none")
 	for _, n := range g5b.order {
 		w.WriteString(g5b.funcs[n].text)
 		w.WriteString("\n")
@@ -5926,9 +6153,15 @@ func goLean(repo, out string) {
 	g8.methodNames = map[string]string{"reader.read": "bed_read"}
 	const BIT = "((Option "+BEDT+") × GoErr)"
 	g8.funcOrMethod("", "Reader", "bed_Reader", "formats/bed", "def bed_Reader (strconv_Atoi : "+ATOI+") (strconv_ParseUint : "+PUINT+") (fuel : Nat) (r : BufRd) (yield : List "+BIT+" → Bool) : Option (List "+BIT+") := none")
+	// bed.File: aio.Open (a parameter: the opened, possibly decompressed, file as reader state, or an error), then a
+	// range-over-func loop over Reader that forwards every item
+	const AOPEN = "List UInt8 → BufRd × GoErr"
+	g8.extFuncs["github.com/fluhus/gostuff/aio.Open"] = extFunc{"aio_Open", AOPEN}
+	g8.funcAlias = map[string]string{"Reader": "bed_Reader"}
+	g8.funcOrMethod("", "File", "bed_File", "formats/bed", "def bed_File (aio_Open : "+AOPEN+") (strconv_Atoi : "+ATOI+") (strconv_ParseUint : "+PUINT+") (fuel : Nat) (file : "+B+") (yield : List "+BIT+" → Bool) : Option (List "+BIT+") := none")
 	g8.ioReaderBuf = false
 	g8.recT, g8.extFuncs = nil, nil
-	for _, n := range []string{"parseLine", "bed_read", "bed_Reader"} {
+	for _, n := range []string{"parseLine", "bed_read", "bed_Reader", "bed_File"} {
 		w.WriteString(g8.funcs[n].text)
 		w.WriteString("\n")
 	}
